@@ -223,7 +223,11 @@ type c04Case struct {
 	logicals     []logical
 	replicas     int
 	replicaLabel string
-	stores       []placedStore
+	// replicaLabel2 ("" = none): a second replica label (e.g. the Prometheus HA pair label remote-written
+	// into receivers that have their own replica label); its value is "p<r>" for replica r and, per
+	// store, it is an external label or stored with the series - independently of replicaLabel.
+	replicaLabel2 string
+	stores        []placedStore
 	mint, maxt   int64
 	desc         string
 	overlapped   bool
@@ -244,7 +248,11 @@ func runC04(c c04Case, dedupOn bool, batch int, strategy store.RetrievalStrategy
 	}
 	proxy := store.NewProxyStore(nil, nil, func() []store.Client { return clients }, component.Query, labels.EmptyLabels(), 30*time.Second, strategy)
 	qc := query.NewQueryableCreator(nil, nil, proxy, 4, 30*time.Second, dedup.AlgorithmPenalty, batch)
-	q, err := qc(dedupOn, []string{c.replicaLabel}, nil, 0, false, false, nil, query.NoopSeriesStatsReporter).Querier(c.mint, c.maxt)
+	replicaLabels := []string{c.replicaLabel}
+	if c.replicaLabel2 != "" {
+		replicaLabels = append(replicaLabels, c.replicaLabel2)
+	}
+	q, err := qc(dedupOn, replicaLabels, nil, 0, false, false, nil, query.NoopSeriesStatsReporter).Querier(c.mint, c.maxt)
 	if err != nil {
 		return nil, err
 	}
@@ -328,6 +336,9 @@ func checkC04(c c04Case, batch int, strategy store.RetrievalStrategy, tolerateLo
 			b := labels.NewBuilder(l.lset)
 			b.Set("region", "eu")
 			b.Set(c.replicaLabel, fmt.Sprint(r))
+			if c.replicaLabel2 != "" {
+				b.Set(c.replicaLabel2, fmt.Sprintf("p%d", r))
+			}
 			wantOff[b.Labels().String()] = within(l.ss, c.mint, c.maxt)
 		}
 	}
@@ -364,6 +375,9 @@ func genC04(rt *rapid.T, allowOverlap bool) c04Case {
 	c := c04Case{}
 	c.replicaLabel = rapid.SampledFrom([]string{"replica", "a_replica", "zz_rep"}).Draw(rt, "replicaLabel")
 	c.replicas = rapid.IntRange(1, 4).Draw(rt, "replicas")
+	if rapid.IntRange(0, 2).Draw(rt, "secondReplicaLabel") == 0 {
+		c.replicaLabel2 = rapid.SampledFrom([]string{"prometheus_replica", "b_rep", "zzz"}).Draw(rt, "replicaLabel2")
+	}
 	nlog := rapid.IntRange(1, 4).Draw(rt, "logical")
 	interval := rapid.SampledFrom([]int64{1000, 15000, 30000}).Draw(rt, "interval")
 	for i := 0; i < nlog; i++ {
@@ -400,6 +414,13 @@ func genC04(rt *rapid.T, allowOverlap bool) c04Case {
 			} else {
 				ps.ext = labels.FromStrings("region", "eu")
 			}
+			external2 := false
+			if c.replicaLabel2 != "" {
+				external2 = rapid.Bool().Draw(rt, "replica2External")
+				if external2 {
+					ps.ext = labels.NewBuilder(ps.ext).Set(c.replicaLabel2, fmt.Sprintf("p%d", r)).Labels()
+				}
+			}
 			if cp == 1 {
 				c.overlapped = true
 			}
@@ -418,8 +439,11 @@ func genC04(rt *rapid.T, allowOverlap bool) c04Case {
 					b.Set(c.replicaLabel, fmt.Sprint(r))
 					lset = b.Labels()
 				}
+				if c.replicaLabel2 != "" && !external2 {
+					lset = labels.NewBuilder(lset).Set(c.replicaLabel2, fmt.Sprintf("p%d", r)).Labels()
+				}
 				ps.series = append(ps.series, memSeries{lset: lset, chks: chks})
-				descs = append(descs, fmt.Sprintf("r%d/c%d/l%d ext=%v cuts=%s", r, cp, li, external, d))
+				descs = append(descs, fmt.Sprintf("r%d/c%d/l%d ext=%v ext2=%v cuts=%s", r, cp, li, external, external2, d))
 			}
 			c.stores = append(c.stores, ps)
 		}
@@ -446,7 +470,7 @@ func genC04(rt *rapid.T, allowOverlap bool) c04Case {
 		c.mint, c.maxt = 0, math.MaxInt64/2
 	}
 	var sb strings.Builder
-	fmt.Fprintf(&sb, "replicaLabel=%s replicas=%d range=[%d,%d] ", c.replicaLabel, c.replicas, c.mint, c.maxt)
+	fmt.Fprintf(&sb, "replicaLabel=%s replicaLabel2=%q replicas=%d range=[%d,%d] ", c.replicaLabel, c.replicaLabel2, c.replicas, c.mint, c.maxt)
 	for i, l := range c.logicals {
 		fmt.Fprintf(&sb, "L%d=%s n=%d t0=%d tN=%d; ", i, l.lset.String(), len(l.ss), l.ss[0].t, l.ss[len(l.ss)-1].t)
 	}
@@ -496,6 +520,9 @@ func TestVerifC04(t *testing.T) {
 		}
 		if c.diffCuts {
 			cls = append(cls, "different-cuts")
+		}
+		if c.replicaLabel2 != "" {
+			cls = append(cls, "two-replica-labels")
 		}
 		cls = append(cls, fmt.Sprintf("replicas-%d", c.replicas), "strategy-"+string(strategy))
 		rec.Case(c.desc, (c.replicas >= 2 && c.diffCuts) || c.overlapped, cls...)
